@@ -14,23 +14,37 @@ import (
 
 // ---- C01: supply conserved -------------------------------------------------------------------------------------------
 
-func monC01(h *Hist, o *TxnObs) {
+func (h *Hist) supplySum(s snap.Snapshot) (uint64, bool) {
 	var sum uint64
-	var wrap bool
-	for _, cl := range h.ClientLeaves(o.Post) {
+	wrap := false
+	for _, cl := range h.ClientLeaves(s) {
 		ns := sum + cl.Balance
 		if ns < sum {
 			wrap = true
 		}
 		sum = ns
 	}
+	return sum, wrap
+}
+
+func monC01(h *Hist, o *TxnObs) {
+	sum, wrap := h.supplySum(o.Post)
 	h.C("C01", "supply_sum_checked")
-	if wrap || sum != config.MaxTokenSupply {
-		h.V("C01", "supply-sum:"+o.Call.Name+":"+o.Outcome, fmt.Sprintf("sum of all account balances %d != max supply %d after %s (%s)", sum, uint64(config.MaxTokenSupply), o.Call.Name, o.Outcome), o)
-	}
 	if r := h.Runs["C01"]; r != nil {
 		r.Eval(1)
 		r.Distinct(o.Call.Name + "|" + o.Outcome + "|" + o.Call.Mut)
+	}
+	if wrap || sum != config.MaxTokenSupply {
+		// report the transaction that changed the sum (later transactions inherit the broken total)
+		if pre, pw := h.supplySum(o.Pre); pw || pre != config.MaxTokenSupply {
+			h.C("C01", "txns_after_supply_already_changed")
+			return
+		}
+		mut := o.Call.Mut
+		if mut != "" {
+			mut = "/" + mut
+		}
+		h.V("C01", "supply-changed:"+o.Call.Name+mut+":"+o.Outcome, fmt.Sprintf("sum of all account balances %d != max supply %d after %s (%s) [delta %+d]", sum, uint64(config.MaxTokenSupply), o.Call.Name, o.Outcome, int64(sum)-int64(config.MaxTokenSupply)), o)
 	}
 }
 
